@@ -23,6 +23,9 @@ type SOp struct {
 	V    int
 	TTL  int64 // ctx ttl (0 = none)
 	Skip bool
+	// the write context is built in two steps: WithTTL(WithTTL(ctx, Base, false), Refine, true); TTL holds the documented outcome
+	HasBase      bool
+	Base, Refine int64
 	// cleanup inputs
 	Needed bool
 }
@@ -30,6 +33,9 @@ type SOp struct {
 func (o SOp) String() string {
 	switch o.Kind {
 	case "w", "wshort":
+		if o.HasBase {
+			return fmt.Sprintf("%s(k%d,v%d,ttl=%d refined with %d)", o.Kind, o.K, o.V, o.Base, o.Refine)
+		}
 		return fmt.Sprintf("%s(k%d,v%d,ttl=%d)", o.Kind, o.K, o.V, o.TTL)
 	case "r":
 		return fmt.Sprintf("r(k%d,skip=%v)", o.K, o.Skip)
@@ -62,7 +68,7 @@ func (s SScript) describe() map[string]interface{} {
 	return map[string]interface{}{
 		"backend": s.Cfg.Kind, "ttl": int64(s.Cfg.TTL), "jitter": s.Cfg.Jitter.F, "strategy": s.Cfg.Strategy,
 		"deleteExpiredAfter": int64(s.Cfg.DEA), "countSoftLimit": s.Cfg.CSL, "evictFraction": s.Cfg.EF.F,
-		"collidingKeys": s.Collide, "ops": s.opsString(), "realJanitor": s.Cfg.RealJanitor,
+		"collidingKeys": s.Collide, "ops": s.opsString(), "realJanitor": s.Cfg.RealJanitor, "heapInUseSoftLimit": s.Cfg.HeapLimit, "sysMemSoftLimit": s.Cfg.SysLimit,
 	}
 }
 
@@ -130,7 +136,7 @@ func genJitter(rng *rand.Rand) Rat {
 }
 
 func genCfgTTL(rng *rand.Rand) time.Duration {
-	switch rng.Intn(5) {
+	switch rng.Intn(7) {
 	case 0:
 		return 0 // default 5m
 	case 1:
@@ -139,6 +145,10 @@ func genCfgTTL(rng *rand.Rand) time.Duration {
 		return time.Hour
 	case 3:
 		return 24 * time.Hour
+	case 4:
+		return -time.Hour // a negative configured ttl other than UnlimitedTTL: entries are born expired
+	case 5:
+		return -2
 	default:
 		return 10 * time.Minute
 	}
@@ -157,7 +167,7 @@ func genScript(profile string, seed int64, idx int, tier string) SScript {
 		maxOps = 120
 	}
 	nOps := 8 + rng.Intn(maxOps-8)
-	weights := map[string]int{"w": 30, "r": 30, "d": 10, "xa": 3, "da": 2, "len": 3, "load": 4, "store": 4, "wshort": 4, "cleanup": 0}
+	weights := map[string]int{"w": 30, "r": 26, "d": 10, "xa": 3, "da": 2, "len": 3, "load": 10, "store": 6, "wshort": 4, "cleanup": 0}
 	switch profile {
 	case "c09":
 		weights["xa"], weights["da"], weights["wshort"] = 1, 1, 1
@@ -168,11 +178,25 @@ func genScript(profile string, seed int64, idx int, tier string) SScript {
 		s.Cfg.DEA = []time.Duration{0, time.Hour, 30 * time.Minute, time.Millisecond}[rng.Intn(4)]
 		s.Cfg.RealJanitor = idx%5 == 4
 	case "c12":
-		weights = map[string]int{"w": 50, "r": 25, "d": 2, "cleanup": 15, "store": 3, "load": 3, "xa": 1}
+		weights = map[string]int{"w": 50, "r": 20, "d": 2, "cleanup": 15, "store": 3, "load": 10, "xa": 1}
 		s.Cfg.CSL = uint64(rng.Intn(8))
 		efs := []Rat{{0, 1, 0}, {1, 2, 0.5}, {1, 4, 0.25}, {1, 1, 1}, {1, 10, 0.1}, {1, 3, 1.0 / 3}, {9, 10, 0.9}, {1, 64, 1.0 / 64}, {3, 4, 0.75}}
 		s.Cfg.EF = efs[rng.Intn(len(efs))]
 		s.Cfg.DEA = []time.Duration{0, time.Millisecond, 30 * time.Minute}[rng.Intn(3)]
+	}
+	if profile == "c11" || profile == "c12" {
+		// soft memory limits far above anything this process can use: they must never make a cycle evict (one set, the other unset too)
+		switch rng.Intn(6) {
+		case 0:
+			s.Cfg.HeapLimit = 1 << 60
+		case 1:
+			s.Cfg.SysLimit = 1 << 60
+		case 2:
+			s.Cfg.HeapLimit, s.Cfg.SysLimit = 1<<60, 1<<61
+		}
+		if profile == "c11" && (s.Cfg.HeapLimit != 0 || s.Cfg.SysLimit != 0) {
+			s.Cfg.EF = Rat{1, 2, 0.5} // a wrongly detected breach must be visible even with a handful of entries
+		}
 	}
 	if profile == "c11" && idx < 6 && !s.Cfg.RealJanitor {
 		// directed regression scripts: an Unlimited cache whose entries get an expiry only through ExpireAll, then a cycle
@@ -243,6 +267,14 @@ func genScript(profile string, seed int64, idx int, tier string) SScript {
 			}
 			if kind == "w" {
 				op.TTL = genTTL(rng)
+				if rng.Intn(5) == 0 {
+					// ttl communicated in two steps (as a value builder does): "minimal non-zero value is kept"
+					op.HasBase, op.Base, op.Refine = true, genTTL(rng), genTTL(rng)
+					op.TTL = op.Base
+					if op.Refine != 0 && (op.TTL == 0 || op.Refine < op.TTL) {
+						op.TTL = op.Refine
+					}
+				}
 			}
 		case "wshort":
 			v++
@@ -388,8 +420,16 @@ func (x *seqExec) runScript(id string, sc SScript, profile string) *seqFail {
 		switch op.Kind {
 		case "w", "store", "wshort":
 			c := ctx
-			if op.TTL != 0 {
+			if op.HasBase {
+				c = cache.WithTTL(cache.WithTTL(ctx, time.Duration(op.Base), false), time.Duration(op.Refine), true)
+				x.res.count("ttl:two-step")
+				if got := int64(cache.TTL(c)); got != op.TTL {
+					return &seqFail{"monitor", "C07", "seq:ctx-ttl", fmt.Sprintf("op #%d %s: the context carries ttl %d; the documented rule (minimal non-zero value is kept) gives %d", i, op, got, op.TTL), i, []string{"C10", "C06"}}
+				}
+			} else if op.TTL != 0 {
 				c = cache.WithTTL(ctx, time.Duration(op.TTL), false)
+			}
+			if op.TTL != 0 {
 				switch {
 				case op.TTL > 0 && op.TTL < int64(time.Second):
 					x.res.count("ttl:tiny")
@@ -415,7 +455,12 @@ func (x *seqExec) runScript(id string, sc SScript, profile string) *seqFail {
 			_, m := dumpImpl(b, keys)
 			e, ok := m[kid]
 			if !ok {
-				return &seqFail{"monitor", "C07", "seq:write-lost", fmt.Sprintf("op #%d %s: entry not in Walk after Write", i, op), i, nil}
+				// the written key is not among the keys Walk reports: lost to a colliding key (C09), or the stored key
+				// aliases the caller's buffer, which was just rewritten (C09), or the map semantics is broken (C07)
+				if sc.Collide {
+					return &seqFail{"monitor", "C09", "seq:write-lost", fmt.Sprintf("op #%d %s: entry not in Walk after Write (key set with xxhash64 collisions; the caller rewrote its key buffer after the call)", i, op), i, []string{"C07"}}
+				}
+				return &seqFail{"monitor", "C07", "seq:write-lost", fmt.Sprintf("op #%d %s: entry not in Walk after Write (the caller rewrote its key buffer after the call)", i, op), i, []string{"C09"}}
 			}
 			r := x.d.Ask(fmt.Sprintf("be w %s %d %d %s %d %d %d %d", id, kid, slot, showTok(op.V), op.TTL, t0, t1, e.E))
 			if r != "ok" {
@@ -765,7 +810,7 @@ func runSeq(o Opts) *Result {
 		rep["driver_log_tail"] = tail(d.Log, 30)
 		rep["rerun"] = fmt.Sprintf("harness seq -profile %s -seed %d -only %d", o.Profile, o.Seed, idx)
 		res.Violations = append(res.Violations, Violation{Property: f.prop, Also: f.also, Kind: f.kind, Sig: f.sig + ":" + sc.Cfg.Kind, Detail: f.detail, Replay: rep})
-		if len(res.Violations) >= 5 {
+		if res.full() {
 			break
 		}
 	}
